@@ -35,12 +35,17 @@ func init() {
 			"(all ordered pairs of 11 small graphs, the whole pool in one history, ladders of growing and shrinking sizes 0..255, seeded histories with repeated inputs and shuffled call order): every string / record / code is compared with the private copy taken when it was returned after every later call, every decoded graph is re-read through the observers at the end; then the caller overwrites the results it owns and the same calls are made again and must give the same answers. " +
 			"caller-owned buffers (buffers.go): the byte / int slices given to MulticodeDecode, MulticodeDecodeMultiple and PruferDecode (and the bytes the graph6 / sparse6 strings are built from) are sub-slices of larger buffers in six forms (own slice, middle of a buffer, prefix, exactly one spare element, three-index slice, large spare capacity) with sentinel, zero and plausible data around them; rows of flat tables of all Pruefer codes n<=5 (6 in thorough), prefixes and windows of longer sequences, records / prefixes / windows of Multicode streams, lines of graph6 / sparse6 texts; " +
 			"the encoders get DenseGraph / SparseGraph values whose Edges, DegreeSequence, neighbour lists (one CSR array) and list headers are sub-slices of buffers shared by a whole table of graphs; after every call the result is judged and every element of the caller's buffers (before, inside, behind the argument up to the capacity) must be unchanged. " +
+			"nested calls (reentrant.go): every encoder is called on a graph.Graph implemented by the caller whose observers (N, M, IsEdge, Neighbours, Degrees), while the outer call is running, call the library themselves - " +
+			"one of the nine functions on another input of the same size / smaller / larger (encode another graph held as DenseGraph, SparseGraph or caller-implemented graph, decode a string / record / code), the running function on the same graph value, " +
+			"an inner call whose own argument makes a further inner call - from the first, a middle, the last call of each observer the function uses, from every call (n<=8), from seeded positions (1..3 inner calls per outer call, n up to 70 incl. the 4-byte size header; 160 in thorough; every single position in turn in thorough), now and then after plain calls on other sizes; " +
+			"one goroutine only. The outer result and every inner result are judged against the reference codec like the results of plain calls (the plain call on the caller-implemented graph is judged first). " +
 			"non-trivial = graph with n >= 3 and m >= 1; distinct = hash of (workload kind, adjacency)",
 		Assumptions: []string{
 			"oracle: internal/oracle/codec written from formats.txt and the definitions, validated at start-up on the formats.txt examples (N(n), DQc, :Fa@x^), the graph6/sparse6 pairs of the repository's own tests (written by nauty tools), Sage's Petersen strings, Cayley counts for Pruefer",
 			"Sparse6Encode's documentation promises the format used by showg/geng/nauty, so string equality with the ntos6 order is demanded; graph6 and Multicode are unique encodings",
 			"DenseGraph / SparseGraph values built by filling the exported fields are legal inputs of the encoders",
 			"PruferDecode's result is compared through IsEdge only (its missing edge count / degree sequence belongs to C06)",
+			"a graph.Graph implemented by the caller may use the library while it answers (the codec functions are documented as plain functions of their arguments; nothing says that they may not be called while another call of them is in progress on the same goroutine): nested calls must give the same results as the same calls made one after the other. Calls that overlap in time on different goroutines are C19's business",
 			"a value returned by a codec function belongs to the caller: it must read the same after any later call into the library (the round trip is demanded of the encoding the caller holds, not only of the bytes at the moment of return), and a slice argument is only read: the memory of the caller before it, inside it and behind it up to its capacity is unchanged by the call",
 		},
 		Run:            run,
@@ -66,6 +71,17 @@ func init() {
 			"buffers:PruferDecode:rows_of_a_flat_table", "buffers:PruferDecode:prefixes_and_windows_of_a_longer_sequence",
 			"buffers:MulticodeDecode:records_inside_a_stream", "buffers:MulticodeDecodeMultiple:prefixes_and_windows_of_a_stream",
 			"buffers:Graph6Decode:lines_of_a_larger_text", "buffers:Sparse6Decode:lines_of_a_larger_text",
+			// nested calls: library calls made by the observers of a caller-implemented graph while an encoder is running on it
+			"reentrant:Graph6Encode:outer_calls_during_which_an_observer_called_the_library", "reentrant:Sparse6Encode:outer_calls_during_which_an_observer_called_the_library",
+			"reentrant:MulticodeEncode:outer_calls_during_which_an_observer_called_the_library", "reentrant:PruferEncode:outer_calls_during_which_an_observer_called_the_library",
+			"reentrant:inner_call_made_from:N", "reentrant:inner_call_made_from:M", "reentrant:inner_call_made_from:IsEdge", "reentrant:inner_call_made_from:Neighbours", "reentrant:inner_call_made_from:Degrees",
+			"reentrant:moment=first_call", "reentrant:moment=middle_call", "reentrant:moment=last_call", "reentrant:moment=every_call", "reentrant:moment=seeded_position",
+			"reentrant:inner:Graph6Encode", "reentrant:inner:Sparse6Encode", "reentrant:inner:MulticodeEncode", "reentrant:inner:PruferEncode",
+			"reentrant:inner:Graph6Decode", "reentrant:inner:Sparse6Decode", "reentrant:inner:MulticodeDecode", "reentrant:inner:MulticodeDecodeMultiple", "reentrant:inner:PruferDecode",
+			"reentrant:inner_call_of_the_running_function_on_the_same_graph_value", "reentrant:inner_call_of_the_running_function_on_another_graph",
+			"reentrant:inner_input_of_the_same_size", "reentrant:inner_input_smaller", "reentrant:inner_input_larger",
+			"reentrant:nesting_depth=1", "reentrant:nesting_depth=2", "reentrant:inner_results_judged",
+			"reentrant:outer_calls_with_several_inner_calls_at_different_moments", "reentrant:cases_with_earlier_plain_calls_on_other_sizes",
 		},
 	})
 }
@@ -1494,4 +1510,6 @@ func run(c *engine.Ctx) {
 	heldUnits(c)
 	// 10. arguments that are sub-slices of larger caller-owned buffers (buffers.go)
 	bufferUnits(c)
+	// 11. nested calls: the observers of a caller-implemented graph call the library while an encoder is running (reentrant.go)
+	reentrantUnits(c)
 }
